@@ -105,6 +105,7 @@ struct V {
     clock_reads: Vec<(String, String, usize)>,
     early_returns: BTreeMap<(String, String), Vec<String>>, // fn -> conditions of leading `if c { return Ok(..) }`
     fs_writes: Vec<(String, String, usize)>,
+    breaks: Vec<(String, String, usize)>,
     module_calls: std::collections::BTreeSet<(String, String)>,
     imports: BTreeMap<String, String>, // imported function name -> module it comes from (this file)
     seq: usize,
@@ -221,6 +222,18 @@ impl V {
     }
 }
 
+thread_local! {
+    /// functions whose return type mentions HashMap/HashSet, and struct fields of such a type (collected in pass 1)
+    static HASH_FNS: std::cell::RefCell<Vec<String>> = std::cell::RefCell::new(Vec::new());
+    static HASH_FIELDS: std::cell::RefCell<Vec<String>> = std::cell::RefCell::new(Vec::new());
+}
+fn note_hash_fn(sig: &syn::Signature) {
+    let out = sig.output.to_token_stream().to_string();
+    if out.contains("HashMap") || out.contains("HashSet") {
+        HASH_FNS.with(|h| { let n = sig.ident.to_string(); if !h.borrow().contains(&n) { h.borrow_mut().push(n) } });
+    }
+}
+
 const MODULES: &[&str] = &["stream", "finalize", "migrate", "backup", "analysis", "detect", "sanity", "gitutil", "git_config", "commit", "tag",
     "pipes", "opts", "message", "filechange", "pathutil", "limits", "error"];
 const FS_WRITES: &[&str] = &["File::create", "fs::write", "fs::remove_file", "fs::remove_dir_all", "fs::remove_dir", "fs::create_dir_all", "fs::create_dir",
@@ -237,6 +250,14 @@ fn use_leaves(t: &syn::UseTree, prefix: &mut Vec<String>, out: &mut Vec<(Vec<Str
 }
 
 impl<'ast> Visit<'ast> for V {
+    fn visit_field(&mut self, f: &'ast syn::Field) {
+        if self.in_test { return; }
+        let t = f.ty.to_token_stream().to_string();
+        if t.contains("HashMap") || t.contains("HashSet") {
+            // struct fields are matched by name within the file that declares the struct (no type inference across files)
+            if let Some(id) = &f.ident { HASH_FIELDS.with(|h| { let n = format!("{}::{}", self.file, id); if !h.borrow().contains(&n) { h.borrow_mut().push(n) } }); }
+        }
+    }
     fn visit_item_use(&mut self, u: &'ast syn::ItemUse) {
         if self.in_test { return; }
         let mut leaves = Vec::new();
@@ -261,6 +282,7 @@ impl<'ast> Visit<'ast> for V {
     }
     fn visit_item_fn(&mut self, f: &'ast ItemFn) {
         if self.in_test || f.attrs.iter().any(|a| a.to_token_stream().to_string().contains("test")) { return; }
+        note_hash_fn(&f.sig);
         let prev = std::mem::replace(&mut self.func, f.sig.ident.to_string());
         let prev_hash = self.hash_vars.clone();
         let prev_thread = self.fn_uses_thread;
@@ -290,6 +312,7 @@ impl<'ast> Visit<'ast> for V {
     }
     fn visit_impl_item_fn(&mut self, f: &'ast syn::ImplItemFn) {
         if self.in_test { return; }
+        note_hash_fn(&f.sig);
         let prev = std::mem::replace(&mut self.func, f.sig.ident.to_string());
         let prev_hash = self.hash_vars.clone();
         let prev_thread = self.fn_uses_thread;
@@ -303,7 +326,9 @@ impl<'ast> Visit<'ast> for V {
         let name = match &l.pat { Pat::Ident(id) => Some(id.ident.to_string()), Pat::Type(t) => match &*t.pat { Pat::Ident(id) => Some(id.ident.to_string()), _ => None }, _ => None };
         let decl = l.to_token_stream().to_string();
         if let Some(n) = &name {
-            if decl.contains("HashMap") || decl.contains("HashSet") { self.hash_vars.push(n.clone()); }
+            let d = decl.replace(' ', "");
+            let from_hash_fn = HASH_FNS.with(|h| h.borrow().iter().any(|f| d.contains(&format!("{f}(")) ));
+            if decl.contains("HashMap") || decl.contains("HashSet") || from_hash_fn { self.hash_vars.push(n.clone()); }
         }
         if let Some(init) = &l.init {
             // status variables: `let X = fe.wait()?` / `child.wait()?`
@@ -421,7 +446,8 @@ impl<'ast> Visit<'ast> for V {
                     if ["iter", "keys", "values", "drain", "into_iter", "iter_mut", "values_mut", "into_keys", "into_values"].contains(&meth.as_str()) {
                         let recv = m.receiver.to_token_stream().to_string().replace(' ', "");
                         let recv_last = recv.trim_start_matches('&').trim_start_matches("mut").to_string();
-                        if self.hash_vars.iter().any(|v| *v == recv_last || recv_last.ends_with(&format!(".{v}"))) {
+                        let is_field = HASH_FIELDS.with(|h| h.borrow().iter().any(|v| v.split_once("::").map_or(false, |(f, n)| f == self.file && recv_last.ends_with(&format!(".{n}")))));
+                        if is_field || self.hash_vars.iter().any(|v| *v == recv_last || recv_last.ends_with(&format!(".{v}"))) {
                             self.hash_iter.push((self.file.clone(), self.func.clone(), m.method.span().start().line));
                         }
                     }
@@ -433,10 +459,15 @@ impl<'ast> Visit<'ast> for V {
         }
         syn::visit::visit_expr(self, e);
     }
+    fn visit_expr_break(&mut self, b: &'ast syn::ExprBreak) {
+        if !self.in_test { self.breaks.push((self.file.clone(), self.func.clone(), b.break_token.span.start().line)); }
+        syn::visit::visit_expr_break(self, b);
+    }
     fn visit_expr_for_loop(&mut self, f: &'ast syn::ExprForLoop) {
         let it = f.expr.to_token_stream().to_string().replace(' ', "");
         let base = it.trim_start_matches('&').trim_start_matches("mut").to_string();
-        if self.hash_vars.iter().any(|v| *v == base) {
+        let is_field = HASH_FIELDS.with(|h| h.borrow().iter().any(|v| v.split_once("::").map_or(false, |(f, n)| f == self.file && base.ends_with(&format!(".{n}")))));
+        if is_field || self.hash_vars.iter().any(|v| *v == base) {
             self.hash_iter.push((self.file.clone(), self.func.clone(), f.for_token.span.start().line));
         }
         syn::visit::visit_expr_for_loop(self, f);
@@ -446,7 +477,7 @@ impl<'ast> Visit<'ast> for V {
 fn main() {
     let src_dir = std::env::args().nth(1).unwrap_or_else(|| "/repo/filter-repo-rs/src".to_string());
     let mut v = V { file: String::new(), func: String::new(), guards: vec![], sites: vec![], events: BTreeMap::new(), wait_vars: BTreeMap::new(),
-        hash_vars: vec![], hash_iter: vec![], dry_reads: vec![], clock_reads: vec![], early_returns: BTreeMap::new(), fs_writes: vec![], module_calls: Default::default(), imports: BTreeMap::new(), seq: 0, in_test: false, cleanup_arm: None, fn_uses_thread: false };
+        hash_vars: vec![], hash_iter: vec![], dry_reads: vec![], clock_reads: vec![], early_returns: BTreeMap::new(), fs_writes: vec![], breaks: vec![], module_calls: Default::default(), imports: BTreeMap::new(), seq: 0, in_test: false, cleanup_arm: None, fn_uses_thread: false };
     let pass = |v: &mut V, files: &Vec<std::path::PathBuf>| {
         for path in files {
             let name = path.file_stem().unwrap().to_string_lossy().to_string();
@@ -464,7 +495,7 @@ fn main() {
     files.sort();
     // pass 1: find the generic runners (a git command whose subcommand comes from an `args` parameter)
     let mut v1 = V { file: String::new(), func: String::new(), guards: vec![], sites: vec![], events: BTreeMap::new(), wait_vars: BTreeMap::new(),
-        hash_vars: vec![], hash_iter: vec![], dry_reads: vec![], clock_reads: vec![], early_returns: BTreeMap::new(), fs_writes: vec![], module_calls: Default::default(), imports: BTreeMap::new(), seq: 0, in_test: false, cleanup_arm: None, fn_uses_thread: false };
+        hash_vars: vec![], hash_iter: vec![], dry_reads: vec![], clock_reads: vec![], early_returns: BTreeMap::new(), fs_writes: vec![], breaks: vec![], module_calls: Default::default(), imports: BTreeMap::new(), seq: 0, in_test: false, cleanup_arm: None, fn_uses_thread: false };
     pass(&mut v1, &files);
     for s in &v1.sites {
         let has_sub = s.args.iter().any(|a| a.as_ref().map_or(false, |l| sub_ctor(l).is_some()));
@@ -538,7 +569,10 @@ fn main() {
     out.push_str("/-- (caller file, callee file): a function of the second module is called by path or through a `use` import from the first (method calls on foreign types are not followed) -/\ndef moduleCalls : List (SrcFile × SrcFile) := [\n");
     out.push_str(&v.module_calls.iter().map(|(a, b)| format!("  (.{}, .{})", file_ctor(a), file_ctor(b))).collect::<Vec<_>>().join(",\n"));
     out.push_str("\n]\n\n");
-    for (name, xs) in [("hashIterSites", &v.hash_iter), ("dryRunReads", &v.dry_reads), ("clockReads", &v.clock_reads), ("fsWriteSites", &v.fs_writes)] {
+    // `break` inside functions that read a child's piped stdout (leaving the reader loop before EOF and then waiting is finding F7)
+    let piped_fns: std::collections::BTreeSet<(String, String)> = v.sites.iter().filter(|s| s.stdout_piped).map(|s| (s.file.clone(), s.func.clone())).collect();
+    let reader_breaks: Vec<(String, String, usize)> = v.breaks.iter().filter(|(f, func, _)| piped_fns.contains(&(f.clone(), func.clone()))).cloned().collect();
+    for (name, xs) in [("readerBreaks", &reader_breaks), ("hashIterSites", &v.hash_iter), ("dryRunReads", &v.dry_reads), ("clockReads", &v.clock_reads), ("fsWriteSites", &v.fs_writes)] {
         out.push_str(&format!("/-- (file, number of sites) -/\ndef {name} : List (SrcFile × Nat) := [\n"));
         let mut per_file: BTreeMap<String, usize> = BTreeMap::new();
         for ((f, _), n) in count_by(xs) { *per_file.entry(f).or_insert(0) += n; }
